@@ -4,10 +4,10 @@ For each mesh: its default mapping (affine for simplices, isoparametric otherwis
 implementations.  Checks (tolerances for well-shaped cells with O(1) coordinates; observed maxima go to the evidence):
   layouts      F / DF / invDF / detDF give the same values for shared (dim x npts) and per-cell (dim x ncells x npts)
                points and for every tind (None, subset, permuted subset with repetition); G / detDG likewise for find
-  round trip   invF(F(X)) == X and F(invF(x)) == x                       (1e-9: includes the Newton iteration of the
+  round trip   invF(F(X)) == X and F(invF(x)) == x                       (1e-11: includes the Newton iteration of the
                isoparametric inverse, whose convergence is a runtime property)
   jacobian     DF == central finite difference of F (1e-6), invDF DF == I (1e-10), detDF == numpy.linalg.det(DF) (1e-10)
-  facet map    G(X, f) == F(Y, cell) with Y = invF(G) on the local facet t2f^-1(f) of the reference cell (1e-9),
+  facet map    G(X, f) == F(Y, cell) with Y = invF(G) on the local facet t2f^-1(f) of the reference cell (1e-11),
                detDG == norm of the Gram determinant of the finite-difference tangents (1e-6)
   normals      unit (1e-12), orthogonal to the facet tangents (1e-6), outward
   divergence   boundary integral of x.n == d * volume (1e-10 relative)
@@ -22,7 +22,7 @@ def _upd(kind, v):
     STAT[kind] = max(STAT.get(kind, 0.0), float(v))
 
 
-TOL = {'facet_basis_normal': 1e-6, 'layouts': 1e-13, 'round_trip': 1e-9, 'fd_jacobian': 1e-6, 'inverse_jacobian': 1e-10, 'det': 1e-10, 'facet_map': 1e-9,
+TOL = {'facet_basis_normal': 1e-6, 'layouts': 1e-13, 'round_trip': 1e-11, 'fd_jacobian': 1e-6, 'inverse_jacobian': 1e-10, 'det': 1e-10, 'facet_map': 1e-11,
        'surface_factor': 1e-6, 'normal_unit': 1e-12, 'normal_orthogonal': 1e-6, 'divergence': 1e-10, 'affine_iso': 1e-11}
 
 
